@@ -80,6 +80,17 @@ CHECKS.update({
                 note="Trusted: serde/serde_json impls of the library types; types without serde impl are checked for the documented shape only."),
 })
 
+CHECKS.update({
+    "C07": dict(engine="E2 typegen-compile (generic corpus)", category="exploration", design="§6 C07",
+                technique="exhaustive enumeration of generic definitions x argument tuples compiled against the real derive; declaration identity across arguments, swc-parsed parameter lists, and model-based equivalence of instantiated generic vs concrete declaration with distinguishing witnesses",
+                text="For every generic definition of the corpus and every argument tuple: the declaration text is argument-independent, generic over exactly the non-concretised parameters with their defaults, closed, names instantiations by argument names, and instantiating it denotes the same type as the concrete declaration.",
+                note="Trusted: swc, tsmodel equivalence bounds. Const arguments fixed."),
+    "C14": dict(engine="E2 typegen-compile (present corpus)", category="exploration", design="§6 C14",
+                technique="exhaustive enumeration of field types x positions x presentations {name, inline, flatten, as}; equivalence of denotations by witness enumeration and string identity of `as` bindings",
+                text="For every type and position: inline denotes the same values as by-name, flatten is the merged object, `as = U` yields exactly the binding of the item typed U, and inline() is the body of decl().",
+                note="Trusted: tsmodel intersection/merge semantics; bounded witness enumeration (reports always carry a distinguishing value)."),
+})
+
 NOT_YET = {
 }
 
